@@ -1642,5 +1642,352 @@ theorem utf8Decode_utf8 (s : Str) : utf8Decode (utf8 s) = some s := by
   have : String.fromUTF8 s.utf8Encode hv = String.ofList s := rfl
   rw [this, String.toList_ofList]
 
+/-! ### early failures, one by one (for instantiating the theorems on concrete worlds) -/
+
+theorem runDecrypt_fail_input {P : Prims} {w : World} {inf : Option Str} {to : Str} {outf kr : Option Str} {e : Bool} {c : Err}
+    (hsf : sameFile inf outf = false) (hi : openInput w inf = .error c) : runDecrypt P w inf to outf kr e = fail w c := by
+  simp only [runDecrypt, hsf, hi, Bool.false_eq_true, if_false]
+
+theorem runDecrypt_fail_keyring {P : Prims} {w : World} {inf : Option Str} {to : Str} {outf kr : Option Str} {e : Bool} {c : Err}
+    {input : Bytes} (hsf : sameFile inf outf = false) (hi : openInput w inf = .ok input) (hk : openKeyring w kr = .error c) :
+    runDecrypt P w inf to outf kr e = fail w c := by
+  simp only [runDecrypt, hsf, hi, hk, Bool.false_eq_true, if_false]
+
+theorem runDecrypt_fail_unlock {P : Prims} {w : World} {inf : Option Str} {to : Str} {outf kr : Option Str} {e : Bool} {c : Err}
+    {input : Bytes} {ks : List Keyring.Key} (hsf : sameFile inf outf = false) (hi : openInput w inf = .ok input)
+    (hk : openKeyring w kr = .ok ks) (hu : unlockNamed w ks to e = .error c) :
+    runDecrypt P w inf to outf kr e = fail w c := by
+  simp only [runDecrypt, hsf, hi, hk, hu, Bool.false_eq_true, if_false]
+
+theorem unlockNamed_noKey {w : World} {ks : List Keyring.Key} {n : Str} {e : Bool} (h : Keyring.getKey ks n = none) :
+    unlockNamed w ks n e = .error .keyNotFound := by
+  simp only [unlockNamed, h]
+
+theorem unlockNamed_noPass {w : World} {ks : List Keyring.Key} {n : Str} {e : Bool} {key : Keyring.Key} {pk : Bytes} {locked : Str}
+    {c : Err} (hg : Keyring.getKey ks n = some key) (hd : Keyring.decodePk key.pk = .ok pk) (hs : key.sk = some locked)
+    (hp : askPass w e = .error c) : unlockNamed w ks n e = .error c := by
+  simp only [unlockNamed, hg, hd, hs, hp]
+
+/-- reading a keyring file that holds `utf8 text` -/
+theorem openKeyring_of {w : World} {p text : Str} {ks : List Keyring.Key} (hf : w.file p = some (utf8 text))
+    (hp : Keyring.parse text = some ks) : openKeyring w (some p) = .ok ks := by
+  simp only [openKeyring, hf, utf8Decode_utf8, hp]
+
+/-- unlocking the named key, step by step -/
+theorem unlockNamed_of {w : World} {ks : List Keyring.Key} {name : Str} {key : Keyring.Key} {locked : Str} {pk pw sk : Bytes}
+    {e : Bool} (hg : Keyring.getKey ks name = some key) (hd : Keyring.decodePk key.pk = .ok pk) (hs : key.sk = some locked)
+    (hp : askPass w e = .ok pw) (hu : Keyring.unlockPrivateKey locked pw = .ok sk) :
+    unlockNamed w ks name e = .ok (sk, pk) := by
+  simp only [unlockNamed, hg, hd, hs, hp, hu]
+
+/-! ### another order: options reversed, the input file last (free arguments float) -/
+
+/-- `decrypt` / `encrypt` with the options in the reverse of the USAGE order and the input file AFTER them -/
+def renderRev (st : Style) : Request → List Str
+  | .encrypt inf to fr outf kr e =>
+    word st "encrypt" "enc" :: (renderFlag st optE e ++ (renderOptional st optK kr ++ (renderOptional st optO outf ++
+      (renderOpt st optF (some fr) ++ (renderOpt st optT (some to) ++ (inf.toList ++ []))))))
+  | .decrypt inf to outf kr e =>
+    word st "decrypt" "dec" :: (renderFlag st optE e ++ (renderOptional st optK kr ++ (renderOptional st optO outf ++
+      (renderOpt st optT (some to) ++ (inf.toList ++ [])))))
+  | r => render st r
+
+theorem parseDecrypt_renderRev (st : Style) (inf : Option Str) (to : Str) (outf kr : Option Str) (e : Bool) (hinf : freeOk inf) :
+    parseDecrypt (renderFlag st optE e ++ (renderOptional st optK kr ++ (renderOptional st optO outf ++
+      (renderOpt st optT (some to) ++ (inf.toList ++ []))))) = .decrypt inf to outf kr e := by
+  have hscan := ScanTo.done (ScanTo.trans (scanTo_flag good_dec_E rfl st e _ {})
+    (ScanTo.trans (scanTo_optional good_dec_K rfl st kr _ _)
+    (ScanTo.trans (scanTo_optional good_dec_O rfl st outf _ _)
+    (ScanTo.trans (scanTo_opt good_dec_T rfl st to _ _)
+    (scanTo_infile _ inf [] _ hinf)))))
+  unfold parseDecrypt getopts
+  rw [hscan]
+  cases inf <;> cases outf <;> cases kr <;> cases e <;> rfl
+
+theorem parseEncrypt_renderRev (st : Style) (inf : Option Str) (to fr : Str) (outf kr : Option Str) (e : Bool) (hinf : freeOk inf) :
+    parseEncrypt (renderFlag st optE e ++ (renderOptional st optK kr ++ (renderOptional st optO outf ++
+      (renderOpt st optF (some fr) ++ (renderOpt st optT (some to) ++ (inf.toList ++ [])))))) = .encrypt inf to fr outf kr e := by
+  have hscan := ScanTo.done (ScanTo.trans (scanTo_flag good_enc_E rfl st e _ {})
+    (ScanTo.trans (scanTo_optional good_enc_K rfl st kr _ _)
+    (ScanTo.trans (scanTo_optional good_enc_O rfl st outf _ _)
+    (ScanTo.trans (scanTo_opt good_enc_F rfl st fr _ _)
+    (ScanTo.trans (scanTo_opt good_enc_T rfl st to _ _)
+    (scanTo_infile _ inf [] _ hinf))))))
+  unfold parseEncrypt getopts
+  rw [hscan]
+  cases inf <;> cases outf <;> cases kr <;> cases e <;> rfl
+
+/-- **the reversed order parses to the same request** -/
+theorem parseArgv_renderRev (prog : Str) (hprog : valOk prog) (st : Style) (req : Request) (h : Renderable req) :
+    parseArgv (prog :: renderRev st req) = req := by
+  cases req with
+  | decrypt inf to outf kr e =>
+    obtain ⟨h1, h2, h3, h4⟩ := h
+    simp only [renderRev]
+    have hno : noHelp (prog :: word st "decrypt" "dec" :: (renderFlag st optE e ++ (renderOptional st optK kr ++
+        (renderOptional st optO outf ++ (renderOpt st optT (some to) ++ (inf.toList ++ [])))))) :=
+      noHelp_cons hprog (noHelp_cons (valOk_word st _ _ (by simp [valOk, str]) (by simp [valOk, str]))
+        (noHelp_append (noHelp_renderFlag tokOk_E st e) (noHelp_append (noHelp_renderOptional tokOk_K st kr h4)
+          (noHelp_append (noHelp_renderOptional tokOk_O st outf h3) (noHelp_append (noHelp_renderOpt tokOk_T st to h2)
+            (noHelp_append (noHelp_infile inf h1) noHelp_nil))))))
+    rw [parseArgv_noHelp _ _ _ hno, parseDecrypt_renderRev st inf to outf kr e h1]
+    unfold word
+    cases st.alias <;> simp (decide := true)
+  | encrypt inf to fr outf kr e =>
+    obtain ⟨h1, h2, h2', h3, h4⟩ := h
+    simp only [renderRev]
+    have hno : noHelp (prog :: word st "encrypt" "enc" :: (renderFlag st optE e ++ (renderOptional st optK kr ++
+        (renderOptional st optO outf ++ (renderOpt st optF (some fr) ++ (renderOpt st optT (some to) ++ (inf.toList ++ []))))))) :=
+      noHelp_cons hprog (noHelp_cons (valOk_word st _ _ (by simp [valOk, str]) (by simp [valOk, str]))
+        (noHelp_append (noHelp_renderFlag tokOk_E st e) (noHelp_append (noHelp_renderOptional tokOk_K st kr h4)
+          (noHelp_append (noHelp_renderOptional tokOk_O st outf h3) (noHelp_append (noHelp_renderOpt tokOk_F st fr h2')
+            (noHelp_append (noHelp_renderOpt tokOk_T st to h2) (noHelp_append (noHelp_infile inf h1) noHelp_nil)))))))
+    rw [parseArgv_noHelp _ _ _ hno, parseEncrypt_renderRev st inf to fr outf kr e h1]
+    unfold word
+    cases st.alias <;> simp (decide := true)
+  | help => exact parseArgv_render prog hprog st _ h
+  | version => exact parseArgv_render prog hprog st _ h
+  | usageError => exact parseArgv_render prog hprog st _ h
+  | keyGen o e => exact parseArgv_render prog hprog st _ h
+  | changePass k e => exact parseArgv_render prog hprog st _ h
+  | extractPub k e => exact parseArgv_render prog hprog st _ h
+  | passEncrypt i o e => exact parseArgv_render prog hprog st _ h
+  | passDecrypt i o e => exact parseArgv_render prog hprog st _ h
+
+/-! ### any order -/
+
+/-- a self-contained stretch of arguments: scanning it appends `items` to the option occurrences and `frees` to the free
+    arguments, whatever precedes and follows -/
+structure Piece where
+  args : List Str
+  items : List (Nat × Option Str)
+  frees : List Str
+
+def Piece.ok (opts : List OptSpec) (p : Piece) : Prop :=
+  ∀ rest m, ScanTo opts (p.args ++ rest) m rest { vals := m.vals ++ p.items, free := m.free ++ p.frees }
+
+theorem scanTo_pieces (opts : List OptSpec) : ∀ (ps : List Piece), (∀ p ∈ ps, p.ok opts) → ∀ rest m,
+    ScanTo opts ((ps.map (·.args)).flatten ++ rest) m rest
+      { vals := m.vals ++ (ps.map (·.items)).flatten, free := m.free ++ (ps.map (·.frees)).flatten }
+  | [], _, rest, m => by simpa using ScanTo.refl opts rest m
+  | p :: ps, h, rest, m => by
+    have h1 := h p (List.mem_cons_self ..) ((ps.map (·.args)).flatten ++ rest) m
+    have h2 := scanTo_pieces opts ps (fun q hq => h q (List.mem_cons_of_mem _ hq)) rest
+      { vals := m.vals ++ p.items, free := m.free ++ p.frees }
+    have := ScanTo.trans h1 h2
+    simpa [List.append_assoc] using this
+
+theorem scan_pieces (opts : List OptSpec) (ps : List Piece) (h : ∀ p ∈ ps, p.ok opts) :
+    scan opts ((ps.map (·.args)).flatten.length + 1) (ps.map (·.args)).flatten {} =
+      some { vals := (ps.map (·.items)).flatten, free := (ps.map (·.frees)).flatten } := by
+  have := ScanTo.done (by simpa using scanTo_pieces opts ps h [] {})
+  simpa using this
+
+/-- the pieces of a rendered request -/
+def pieceOpt (st : Style) (o : OptSpec) (id : Nat) (v : Str) : Piece := ⟨renderOpt st o (some v), [(id, some v)], []⟩
+def pieceOptional (st : Style) (o : OptSpec) (id : Nat) (v : Option Str) : Piece :=
+  ⟨renderOptional st o v, (match v with | none => [] | some v => [(id, some v)]), []⟩
+def pieceFlag (st : Style) (o : OptSpec) (id : Nat) (b : Bool) : Piece := ⟨renderFlag st o b, (if b then [(id, none)] else []), []⟩
+def pieceFile (inf : Option Str) : Piece := ⟨inf.toList, [], inf.toList⟩
+
+theorem pieceOpt_ok {opts : List OptSpec} {id : Nat} {o : OptSpec} (g : GoodOpt opts id o) (ha : o.hasArg = true)
+    (st : Style) (v : Str) : (pieceOpt st o id v).ok opts :=
+  fun rest m => by simpa [pieceOpt] using scanTo_opt g ha st v rest m
+theorem pieceOptional_ok {opts : List OptSpec} {id : Nat} {o : OptSpec} (g : GoodOpt opts id o) (ha : o.hasArg = true)
+    (st : Style) (v : Option Str) : (pieceOptional st o id v).ok opts :=
+  fun rest m => by
+    cases v with
+    | none => simpa [pieceOptional, renderOptional] using ScanTo.refl opts rest m
+    | some v => simpa [pieceOptional, renderOptional] using scanTo_opt g ha st v rest m
+theorem pieceFlag_ok {opts : List OptSpec} {id : Nat} {o : OptSpec} (g : GoodOpt opts id o) (ha : o.hasArg = false)
+    (st : Style) (b : Bool) : (pieceFlag st o id b).ok opts :=
+  fun rest m => by simpa [pieceFlag] using scanTo_flag g ha st b rest m
+theorem pieceFile_ok (opts : List OptSpec) (inf : Option Str) (h : freeOk inf) : (pieceFile inf).ok opts :=
+  fun rest m => by simpa [pieceFile] using scanTo_infile opts inf rest m h
+
+/-! the result of `getopts` is read through `countOpt` / `optStr` / `optPresent` / `free` only -/
+
+theorem countOpt_perm {m m' : Matches} (h : m.vals.Perm m'.vals) (id : Nat) : countOpt m id = countOpt m' id :=
+  (h.filter _).length_eq
+
+theorem optStr_perm {m m' : Matches} (h : m.vals.Perm m'.vals) (id : Nat) (hc : countOpt m id ≤ 1) : optStr m id = optStr m' id := by
+  unfold optStr
+  rw [← List.head?_filter, ← List.head?_filter]
+  have hp := h.filter (fun x => x.1 == id)
+  have : m.vals.filter (fun x => x.1 == id) = m'.vals.filter (fun x => x.1 == id) := by
+    unfold countOpt at hc
+    cases hl : m.vals.filter (fun x => x.1 == id) with
+    | nil => rw [hl] at hp; exact (List.nil_perm.mp hp).symm
+    | cons a t =>
+      rw [hl] at hc hp
+      cases t with
+      | nil => exact List.singleton_perm.mp hp
+      | cons b t' => simp at hc
+  rw [this]
+
+/-- the final check of `Options::parse` -/
+def optCheck (opts : List OptSpec) (m : Matches) : Bool :=
+  (List.range opts.length).all fun id =>
+    (match opts[id]? with
+     | some o => (!o.required || countOpt m id ≥ 1) && countOpt m id ≤ 1
+     | none => true)
+
+theorem getopts_of_scan {opts : List OptSpec} {args : List Str} {m : Matches}
+    (h : scan opts (args.length + 1) args {} = some m) : getopts opts args = if optCheck opts m then some m else none := by
+  have : getopts opts args = match scan opts (args.length + 1) args {} with
+      | none => none
+      | some m => if optCheck opts m then some m else none := rfl
+  rw [this, h]
+
+theorem optCheck_perm (opts : List OptSpec) {m m' : Matches} (h : m.vals.Perm m'.vals) : optCheck opts m = optCheck opts m' := by
+  unfold optCheck
+  congr 1
+  funext id
+  rw [countOpt_perm h id]
+
+/-- when the check passes every option occurs at most once -/
+theorem optCheck_le (opts : List OptSpec) (m : Matches) (h : optCheck opts m = true) (id : Nat) (hid : id < opts.length) :
+    countOpt m id ≤ 1 := by
+  unfold optCheck at h
+  rw [List.all_eq_true] at h
+  have := h id (List.mem_range.mpr hid)
+  rw [List.getElem?_eq_getElem hid] at this
+  simp only [Bool.and_eq_true, decide_eq_true_eq] at this
+  exact this.2
+
+theorem parseDecrypt_perm {args args' : List Str} {m m' : Matches}
+    (h1 : scan [optT, optO, optK, optE] (args.length + 1) args {} = some m)
+    (h2 : scan [optT, optO, optK, optE] (args'.length + 1) args' {} = some m')
+    (hv : m.vals.Perm m'.vals) (hf : m.free = m'.free) : parseDecrypt args = parseDecrypt args' := by
+  unfold parseDecrypt
+  rw [getopts_of_scan h1, getopts_of_scan h2, optCheck_perm _ hv]
+  cases hc : optCheck [optT, optO, optK, optE] m' with
+  | false => rfl
+  | true =>
+    have hle := optCheck_le _ m (by rw [optCheck_perm _ hv]; exact hc)
+    simp only [if_true, infileOf, hf, optPresent, ← optStr_perm hv 0 (hle 0 (by decide)), ← optStr_perm hv 1 (hle 1 (by decide)),
+      ← optStr_perm hv 2 (hle 2 (by decide)), ← countOpt_perm hv 3]
+
+theorem parseEncrypt_perm {args args' : List Str} {m m' : Matches}
+    (h1 : scan [optT, optF, optO, optK, optE] (args.length + 1) args {} = some m)
+    (h2 : scan [optT, optF, optO, optK, optE] (args'.length + 1) args' {} = some m')
+    (hv : m.vals.Perm m'.vals) (hf : m.free = m'.free) : parseEncrypt args = parseEncrypt args' := by
+  unfold parseEncrypt
+  rw [getopts_of_scan h1, getopts_of_scan h2, optCheck_perm _ hv]
+  cases hc : optCheck [optT, optF, optO, optK, optE] m' with
+  | false => rfl
+  | true =>
+    have hle := optCheck_le _ m (by rw [optCheck_perm _ hv]; exact hc)
+    simp only [if_true, infileOf, hf, optPresent, ← optStr_perm hv 0 (hle 0 (by decide)), ← optStr_perm hv 1 (hle 1 (by decide)),
+      ← optStr_perm hv 2 (hle 2 (by decide)), ← optStr_perm hv 3 (hle 3 (by decide)), ← countOpt_perm hv 4]
+
+/-- the free arguments of a permuted list of pieces, when there is at most one -/
+theorem frees_perm {ps ps' : List Piece} (h : ps'.Perm ps) (hl : ((ps.map (·.frees)).flatten).length ≤ 1) :
+    (ps'.map (·.frees)).flatten = (ps.map (·.frees)).flatten := by
+  have hp : ((ps'.map (·.frees)).flatten).Perm ((ps.map (·.frees)).flatten) := (h.map _).flatten
+  cases hc : (ps.map (·.frees)).flatten with
+  | nil => rw [hc] at hp; exact List.perm_nil.mp hp
+  | cons a t =>
+    rw [hc] at hl hp
+    cases t with
+    | nil => exact List.perm_singleton.mp hp
+    | cons b t' => simp at hl
+
+/-- the pieces of `decrypt`, in the USAGE order -/
+def decryptPieces (st : Style) (inf : Option Str) (to : Str) (outf kr : Option Str) (e : Bool) : List Piece :=
+  [pieceFile inf, pieceOpt st optT 0 to, pieceOptional st optO 1 outf, pieceOptional st optK 2 kr, pieceFlag st optE 3 e]
+
+def encryptPieces (st : Style) (inf : Option Str) (to fr : Str) (outf kr : Option Str) (e : Bool) : List Piece :=
+  [pieceFile inf, pieceOpt st optT 0 to, pieceOpt st optF 1 fr, pieceOptional st optO 2 outf, pieceOptional st optK 3 kr,
+   pieceFlag st optE 4 e]
+
+theorem decryptPieces_ok (st : Style) (inf : Option Str) (to : Str) (outf kr : Option Str) (e : Bool) (h : freeOk inf) :
+    ∀ p ∈ decryptPieces st inf to outf kr e, p.ok [optT, optO, optK, optE] := by
+  intro p hp
+  simp only [decryptPieces, List.mem_cons, List.mem_nil_iff, or_false] at hp
+  rcases hp with rfl | rfl | rfl | rfl | rfl
+  · exact pieceFile_ok _ inf h
+  · exact pieceOpt_ok good_dec_T rfl st to
+  · exact pieceOptional_ok good_dec_O rfl st outf
+  · exact pieceOptional_ok good_dec_K rfl st kr
+  · exact pieceFlag_ok good_dec_E rfl st e
+
+theorem encryptPieces_ok (st : Style) (inf : Option Str) (to fr : Str) (outf kr : Option Str) (e : Bool) (h : freeOk inf) :
+    ∀ p ∈ encryptPieces st inf to fr outf kr e, p.ok [optT, optF, optO, optK, optE] := by
+  intro p hp
+  simp only [encryptPieces, List.mem_cons, List.mem_nil_iff, or_false] at hp
+  rcases hp with rfl | rfl | rfl | rfl | rfl | rfl
+  · exact pieceFile_ok _ inf h
+  · exact pieceOpt_ok good_enc_T rfl st to
+  · exact pieceOpt_ok good_enc_F rfl st fr
+  · exact pieceOptional_ok good_enc_O rfl st outf
+  · exact pieceOptional_ok good_enc_K rfl st kr
+  · exact pieceFlag_ok good_enc_E rfl st e
+
+/-- **any order, decrypt**: every permutation of the rendered pieces (input file, `-t`, `-o`, `-k`, `--env-pass`) parses to the
+    same request -/
+theorem parseDecrypt_anyOrder (st : Style) (inf : Option Str) (to : Str) (outf kr : Option Str) (e : Bool) (hinf : freeOk inf)
+    (ps' : List Piece) (hperm : ps'.Perm (decryptPieces st inf to outf kr e)) :
+    parseDecrypt (ps'.map (·.args)).flatten = .decrypt inf to outf kr e := by
+  have hok := decryptPieces_ok st inf to outf kr e hinf
+  have h1 := scan_pieces _ ps' (fun p hp => hok p (hperm.mem_iff.mp hp))
+  have h2 := scan_pieces _ _ hok
+  rw [parseDecrypt_perm h1 h2 ((hperm.map _).flatten) (frees_perm hperm (by cases inf <;> simp [decryptPieces, pieceFile, pieceOpt, pieceOptional, pieceFlag]))]
+  exact parseDecrypt_render st inf to outf kr e hinf
+
+theorem parseEncrypt_anyOrder (st : Style) (inf : Option Str) (to fr : Str) (outf kr : Option Str) (e : Bool) (hinf : freeOk inf)
+    (ps' : List Piece) (hperm : ps'.Perm (encryptPieces st inf to fr outf kr e)) :
+    parseEncrypt (ps'.map (·.args)).flatten = .encrypt inf to fr outf kr e := by
+  have hok := encryptPieces_ok st inf to fr outf kr e hinf
+  have h1 := scan_pieces _ ps' (fun p hp => hok p (hperm.mem_iff.mp hp))
+  have h2 := scan_pieces _ _ hok
+  rw [parseEncrypt_perm h1 h2 ((hperm.map _).flatten) (frees_perm hperm (by cases inf <;> simp [encryptPieces, pieceFile, pieceOpt, pieceOptional, pieceFlag]))]
+  exact parseEncrypt_render st inf to fr outf kr e hinf
+
+
+theorem noHelp_perm {l l' : List Str} (h : l'.Perm l) (hl : noHelp l) : noHelp l' :=
+  fun a ha => hl a (h.mem_iff.mp ha)
+
+theorem parseArgv_anyOrder_decrypt (prog : Str) (hprog : valOk prog) (st : Style) (inf : Option Str) (to : Str)
+    (outf kr : Option Str) (e : Bool) (h : Renderable (.decrypt inf to outf kr e))
+    (ps' : List Piece) (hperm : ps'.Perm (decryptPieces st inf to outf kr e)) :
+    parseArgv (prog :: word st "decrypt" "dec" :: (ps'.map (·.args)).flatten) = .decrypt inf to outf kr e := by
+  obtain ⟨h1, h2, h3, h4⟩ := h
+  have hcanon : noHelp ((decryptPieces st inf to outf kr e).map (·.args)).flatten :=
+    noHelp_append (noHelp_infile inf h1) (noHelp_append (noHelp_renderOpt tokOk_T st to h2)
+      (noHelp_append (noHelp_renderOptional tokOk_O st outf h3) (noHelp_append (noHelp_renderOptional tokOk_K st kr h4)
+        (noHelp_append (noHelp_renderFlag tokOk_E st e) noHelp_nil))))
+  have hno : noHelp (prog :: word st "decrypt" "dec" :: (ps'.map (·.args)).flatten) :=
+    noHelp_cons hprog (noHelp_cons (valOk_word st _ _ (by simp [valOk, str]) (by simp [valOk, str]))
+      (noHelp_perm (hperm.map _).flatten hcanon))
+  rw [parseArgv_noHelp _ _ _ hno, parseDecrypt_anyOrder st inf to outf kr e h1 ps' hperm]
+  unfold word
+  cases st.alias <;> simp (decide := true)
+
+theorem parseArgv_anyOrder_encrypt (prog : Str) (hprog : valOk prog) (st : Style) (inf : Option Str) (to fr : Str)
+    (outf kr : Option Str) (e : Bool) (h : Renderable (.encrypt inf to fr outf kr e))
+    (ps' : List Piece) (hperm : ps'.Perm (encryptPieces st inf to fr outf kr e)) :
+    parseArgv (prog :: word st "encrypt" "enc" :: (ps'.map (·.args)).flatten) = .encrypt inf to fr outf kr e := by
+  obtain ⟨h1, h2, h2', h3, h4⟩ := h
+  have hcanon : noHelp ((encryptPieces st inf to fr outf kr e).map (·.args)).flatten :=
+    noHelp_append (noHelp_infile inf h1) (noHelp_append (noHelp_renderOpt tokOk_T st to h2)
+      (noHelp_append (noHelp_renderOpt tokOk_F st fr h2')
+      (noHelp_append (noHelp_renderOptional tokOk_O st outf h3) (noHelp_append (noHelp_renderOptional tokOk_K st kr h4)
+        (noHelp_append (noHelp_renderFlag tokOk_E st e) noHelp_nil)))))
+  have hno : noHelp (prog :: word st "encrypt" "enc" :: (ps'.map (·.args)).flatten) :=
+    noHelp_cons hprog (noHelp_cons (valOk_word st _ _ (by simp [valOk, str]) (by simp [valOk, str]))
+      (noHelp_perm (hperm.map _).flatten hcanon))
+  rw [parseArgv_noHelp _ _ _ hno, parseEncrypt_anyOrder st inf to fr outf kr e h1 ps' hperm]
+  unfold word
+  cases st.alias <;> simp (decide := true)
+
+/-- the canonical order is `render` -/
+theorem render_decrypt_pieces (st : Style) (inf : Option Str) (to : Str) (outf kr : Option Str) (e : Bool) :
+    render st (.decrypt inf to outf kr e) = word st "decrypt" "dec" :: ((decryptPieces st inf to outf kr e).map (·.args)).flatten := rfl
+theorem render_encrypt_pieces (st : Style) (inf : Option Str) (to fr : Str) (outf kr : Option Str) (e : Bool) :
+    render st (.encrypt inf to fr outf kr e) =
+      word st "encrypt" "enc" :: ((encryptPieces st inf to fr outf kr e).map (·.args)).flatten := rfl
+
+
 end Cli
 end Kestrel
